@@ -25,7 +25,7 @@ def cp_cfg(rng: random.Random, tier: str) -> gen.GenCfg:
         base=rng.choice([0, 1000, 10 ** 6]), zero_len_same_start_ok=False,
         bwd_thread=rng.random() < 0.25, bwd_annotation=rng.random() < 0.3,
         max_depth=rng.choice([2, 3, 4]), max_children=rng.choice([2, 3]), pre_ops=rng.choice([0, 1]), post_ops=rng.choice([0, 1]),
-        corr_base=rng.choice([100, 100, 0]), big_vocab=rng.random() < 0.2, unlinked_head=rng.choice([0, 0, 1]), p_nested_annotation=rng.choice([0.0, 0.15, 0.3]), loner=rng.random() < 0.15,
+        p_launch_at_step_end=rng.choice([0.0, 0.3]), corr_base=rng.choice([100, 100, 0]), big_vocab=rng.random() < 0.2, unlinked_head=rng.choice([0, 0, 1]), p_nested_annotation=rng.choice([0.0, 0.15, 0.3]), loner=rng.random() < 0.15,
     )
 
 
